@@ -505,6 +505,11 @@ def r6(ctx):
                   'the upgrade hooks write `%s` (%s): %s' % (fld, how, UPGRADE_WRITES.get(fld, '')),
                   'the upgrade hooks overwrite `%s` (%s in %s) — a field that is carried across the upgrade is changed by the upgrade itself, '
                   'so the answers after the upgrade differ from those of a canister that was not upgraded' % (fld, how, f.short))
+    # the re-attached block bodies are all kept: nothing on the upgrade path removes from the blocks cache
+    U = prog.reach([pre, post], dyn=True, stop=stop)
+    rm = [c for f in U.values() if not stop(f) for c in f.calls() if not c.cleanup and (c.gshort or '').endswith('BlocksCache::remove')]
+    ctx.check(not rm, 'R6', 'upgrade-keeps-block-bodies', rm[0] if rm else post, 'no block body is removed from the stable-memory cache on the upgrade path',
+              'the upgrade path removes block bodies from the stable-memory cache (%s): blocks still in the unstable tree lose their bodies, and the next pop / fee recomputation traps' % (rm[0].fn.short if rm else ''))
     for fld in ('SyncingState.is_fetching_blocks', 'SyncingState.response_to_process'):
         if fld not in seen:
             ctx.bad('R6', 'upgrade-writes:' + fld, post, 'the transient field `%s` is no longer reset on the upgrade path' % fld)
